@@ -38,6 +38,11 @@ for c in "$@"; do
     t1=$(date +%s.%N)
     sig=$(grep -m1 -E "^(violation|replay .* shows C)" "$S/$c.out" | cut -c1-220)
     printf "%s %s rc=%d %.1fs %s%s\n" "$NAME" "$c" "$rc" "$(echo "$t1 - $t0" | bc)" "$([ "$seed" != default ] && echo "seed=$seed ")" "$sig"
+    if [ $rc -eq 1 ] && [ -n "${KEEP_FOUND:-}" ]; then
+        # keep the shrunk scenario that exposed the change (becomes a regression replay / corpus entry)
+        f=$(sed -n 's/^VIOLATION property=[A-Z0-9]* replay=//p' "$S/$c.out" | head -1)
+        case "$f" in */replays/found/*) mkdir -p "$KEEP_FOUND"; cp "$f" "$KEEP_FOUND/$NAME--$c.json" 2>/dev/null ;; esac
+    fi
   done
 done
 rm -rf "$S"
